@@ -39,6 +39,8 @@ func init() {
 			{Units: `parser/spec\.Parse\$1$`, Names: `#(inv-init|inv-pres|inv-frame)\[[678],`},
 			{Units: `parser/spec\.SymbolTable\.AddProduction$`},
 			{Units: `parser/spec\.(hashStrings|eqStrings|Strings\.Contains)$`},
+			// the grammar handed to the table builder is the user's: one helper non-terminal per (operator, operands) (shared with C01)
+			{Units: `parser/spec\.SymbolTable\.(GetOpt|GetGroup|GetStar|GetPlus|mapStringToNoneTerminal)$`},
 			{Units: `generate/golang\.generator\.generateParser$`, Kinds: nonSafety},
 			{Units: `generate/golang\.Generate$`, Kinds: nonSafety},
 		},
